@@ -369,8 +369,14 @@ class SqlRegistry:
         ------
         `None`
         """
-        with self._db.transaction(savepoint=savepoint):
-            yield
+        try:
+            with self._db.transaction(savepoint=savepoint):
+                yield
+        except BaseException:
+            # Dimension records cached while the block was running may include
+            # rows that have just been rolled back.
+            self.dimension_record_cache.reset()
+            raise
 
     def resetConnectionPool(self) -> None:
         """Reset SQLAlchemy connection pool for `SqlRegistry` database.
